@@ -10,9 +10,13 @@ TRUST = ("Lean kernel; axioms ⊆ {propext, Classical.choice, Quot.sound} (audit
 
 CHECKS = {
     'C01': dict(
-        text=("Lean theorems: leaf-level dump/load inverses (incl. the Z rewrite, proved over all strings) under named StdLaws; "
-              "model of dump + default-engine load tied to the code by type-directed differential correspondence; round-trip oracle "
-              "through dict, JSON text, list, YAML, TOML and JSON-file mixins"),
+        text=("Lean theorems: the structural round trip fromdict(cls, json(asdict(x))) = x for every instance of every model over "
+              "int / float / str / bool / Decimal / Path / UUID / date / time / datetime (named StdLaws) / Optional / list / "
+              "dict[str, .] / plain dataclasses nested to any depth (induction over the conformance derivation, chaining the "
+              "generated dump field loop into the load key loop and the constructor step); leaf inverses and the Z rewrite over all "
+              "strings. Outside the fragment (aliases, key transforms, skip rules, tags, sets / tuples / NamedTuple / TypedDict, "
+              "timedelta, Enum) the round trip is carried by the oracle: model of dump + load tied to the code by type-directed "
+              "correspondence; round trip through dict, JSON text, list, YAML, TOML and JSON-file mixins"),
         technique='Lean 4 proof over a hand model + differential correspondence + round-trip oracle', ref='4 C01'),
     'C02': dict(
         text=("Lean theorems over a semantic model of the v1 loader: leaf inverses incl. bytes/bytearray (base64), consistency of every "
@@ -22,8 +26,11 @@ CHECKS = {
         technique='Lean 4 proof over a hand (semantic) model + differential correspondence + round-trip oracle', ref='4 C02'),
     'C03': dict(
         text=("Lean theorems: the isinstance scan over the registration table (regenerated from source) reaches the documented "
-              "most-specific encoder for every documented runtime type incl. subclasses; hooks are effect-free (ast summaries); "
-              "scalar results JSON-safe; dump model tied to the code by type-exact correspondence incl. aliasing / side-effect monitors"),
+              "most-specific encoder for every documented runtime type incl. subclasses; hooks are effect-free (ast summaries); the "
+              "dump of EVERY value (any nesting of dataclasses, containers, named tuples, scalars, any Meta / travelling config, ISO "
+              "or TIMESTAMP) that does not raise contains no node the standard encoder refuses (induction on the size of the value "
+              "over all five mutually recursive dump functions); dump model tied to the code by type-exact correspondence incl. "
+              "aliasing / side-effect monitors. Keys of user dictionaries are not restricted by the theorem (dict[tuple, .])"),
         technique='Lean 4 proof over generated tables + hand model + differential correspondence', ref='4 C03'),
     'C04': dict(
         text=("Lean theorems for all three engines: default — truthy table = documented set (regenerated), coercion laws, int-of-float "
